@@ -11,7 +11,9 @@ Parts (DESIGN §2.4):
                     parser must be equal and algosdk must encode sample values identically under both strings
   5. gates          SubroutineDefinition.invoke and InnerTxnBuilder.MethodCall accept an ABI argument iff assignable;
                     direct assignment dst.set(<ABI value>) for every ordered pair of the universe, member assignment
-                    (Tuple.set / Array.set) and dst.set(<ComputedValue>) accept iff the modelled per-class test does,
+                    (Tuple.set / Array.set), dst.set(<ComputedValue>) and <ComputedValue>.store_into(dst) (ReturnedValue of an
+                    ABIReturnSubroutine call, TupleElement, ArrayElement; accepted = builds AND compiles at v6/v8) accept iff
+                    the modelled per-class test does,
                     and every ACCEPTED call is judged by the oracle (same layout, same encodings)
   6. known findings replayed;  7. verdict
 """
@@ -315,7 +317,7 @@ def replay(path):
     A, B = AB.to_pyteal(ta), AB.to_pyteal(tb)
     ck = Check("C19", "quick")
     kind = ent.get("kind", "")
-    if kind.startswith("gate-set"):
+    if kind.startswith("gate-set") or kind.startswith("gate-store-into"):
         import pyteal as pt
         from pyteal import abi
 
@@ -331,6 +333,24 @@ def replay(path):
                  "gate-set-member-tuple": lambda: abi.TupleTypeSpec(B, abi.BoolTypeSpec()).new_instance().set(A.new_instance(), abi.Bool()),
                  "gate-set-member-darr": lambda: abi.DynamicArrayTypeSpec(B).new_instance().set([A.new_instance()]),
                  "gate-set-member-sarr": lambda: abi.StaticArrayTypeSpec(B, 1).new_instance().set([A.new_instance()])}
+
+        def _returned():
+            def fn(*, output):
+                return output.decode(pt.Txn.application_args[0])
+            fn.__annotations__ = {"output": A.annotation_type(), "return": pt.Expr}
+            fn.__name__ = "produce"
+            e = pt.ABIReturnSubroutine(fn)().store_into(B.new_instance())
+            return [pt.compileTeal(pt.Seq(e, pt.Approve()), pt.Mode.Application, version=v) for v in (6, 8)]
+
+        def _element(H):
+            h = H.new_instance()
+            e = h[0].store_into(B.new_instance())
+            return [pt.compileTeal(pt.Seq(h.decode(pt.Txn.application_args[0]), e, pt.Approve()), pt.Mode.Application, version=v) for v in (6, 8)]
+
+        calls.update({"gate-store-into-returned": _returned,
+                      "gate-store-into-tuple-element": lambda: _element(abi.TupleTypeSpec(A, abi.BoolTypeSpec())),
+                      "gate-store-into-darr-element": lambda: _element(abi.DynamicArrayTypeSpec(A)),
+                      "gate-store-into-sarr-element": lambda: _element(abi.StaticArrayTypeSpec(A, 1))})
         r = call_real(calls[kind])
         f = oracle_pair(ck, ent["str_a"], ent["str_b"], ck.rng, 5)
         print("%s: source %s into target %s: %s; oracle: %s" % (kind, ent["str_a"], ent["str_b"], "accepted" if r[0] == "ok" else r[1:],
@@ -676,6 +696,83 @@ def main(argv):
                 set_stats["elem_accepted"] += ok
                 record("gate-set-member-" + hname, ta, tb, str(A), str(B), EM[i][j] == "1", ok, how)
     gates.update(set_stats)
+    # ---- ComputedValue.store_into(dst): ReturnedValue (ABIReturnSubroutine call), TupleElement, ArrayElement ----
+    si_stats = {"store_into_calls": 0, "store_into_accepted": 0, "store_into_compiled": 0, "store_into_deferred_rejections": 0,
+                "store_into_producers": 0, "store_into_uncompiled_suspects": 0}
+    arg0 = pt.Txn.application_args[0]
+
+    def annotation_roundtrips(A):
+        try:
+            B = abi.type_spec_from_annotation(A.annotation_type())
+            return type(B) is type(A) and B == A and A == B and str(B) == str(A)
+        except Exception:  # noqa
+            return False
+
+    def returned_value(A, k):
+        def fn(*, output):
+            return output.decode(arg0)
+        fn.__annotations__ = {"output": A.annotation_type(), "return": pt.Expr}
+        fn.__name__ = "produce%d" % k
+        rv = pt.ABIReturnSubroutine(fn)()
+        return rv if (type(rv.produced_type_spec()) is type(A) and rv.produced_type_spec() == A) else None
+
+    def producers(A, k):
+        """[(kind, computed value, preparation expr)] producing exactly spec A"""
+        out = []
+        if annotation_roundtrips(A):
+            r = call_real(returned_value, A, k)
+            if r[0] == "ok" and r[1] is not None:
+                out.append(("returned", r[1], None))
+        for kind, H in (("tuple-element", abi.TupleTypeSpec(A, abi.BoolTypeSpec())), ("darr-element", abi.DynamicArrayTypeSpec(A)),
+                        ("sarr-element", abi.StaticArrayTypeSpec(A, 1))):
+            r = call_real(lambda: H.new_instance())
+            if r[0] == "ok":
+                e = call_real(lambda: r[1][0])
+                if e[0] == "ok" and isinstance(e[1], abi.ComputedValue) and e[1].produced_type_spec() == A:
+                    out.append((kind, e[1], r[1].decode(arg0)))
+        return out
+
+    def builds(expr, prep):
+        """the rejection must not merely be deferred: the program has to compile (v6 scratch slots, v8 frame pointers)"""
+        okv = []
+        for v in (6, 8):
+            prog = pt.Seq(*( [prep] if prep is not None else [] ), expr, pt.Approve())
+            c = call_real(pt.compileTeal, prog, pt.Mode.Application, version=v)
+            okv.append(c[0] == "ok")
+        return okv
+
+    PI = [(t, A, i) for (t, A, i) in SI if not AB.has_special(t)]
+    if thorough:
+        ck.rng.shuffle(PI)
+        PI = PI[:600]
+    p_types = [t for (t, _, _) in PI]
+    XM = matrix(model, "simatrix", p_types, p_types)
+    suspects_compiled = 0
+    for i, (ta, A, _) in enumerate(PI):
+        for kind, cv, prep in producers(A, i):
+            si_stats["store_into_producers"] += 1
+            for j, (tb, B, ib) in enumerate(PI):
+                want = XM[i][j] == "1"
+                r = call_real(lambda: cv.store_into(ib))
+                ck.count(("gate-store-into", kind, ta, tb))
+                si_stats["store_into_calls"] += 1
+                ok, how = r[0] == "ok", ("accepted" if r[0] == "ok" else r[1])
+                if ok:
+                    if want or suspects_compiled < 150:
+                        suspects_compiled += 0 if want else 1
+                        okv = builds(r[1], prep)
+                        si_stats["store_into_compiled"] += 1
+                        if not any(okv):
+                            ok, how = False, "rejected-at-compile"
+                            si_stats["store_into_deferred_rejections"] += 1
+                        else:
+                            how = "accepted (compiles at v%s)" % "/".join(str(v) for v, o in zip((6, 8), okv) if o)
+                    else:
+                        si_stats["store_into_uncompiled_suspects"] += 1
+                        continue
+                si_stats["store_into_accepted"] += ok
+                record("gate-store-into-" + kind, ta, tb, str(A), str(B), want, ok, "accepted" if ok else how)
+    gates.update(si_stats)
     ck.coverage["gates"] = gates
 
     # ---------------- 6. known findings ----------------
